@@ -1051,6 +1051,47 @@ func c14ObjSuffix(c *Ctx) {
 	// where its body builds the request: both must put the same question to the same quantity
 	// enum or struct: a type is emitted as an enum (uint32 constants) only when NO constructor of it has
 	// parameters; deciding on one constructor (the last, the first) drops the structs of the others
+	// which fields live in the flags word: exactly the parameters of TL type `true`.  A flags.N?Bool is a bit plus
+	// a Bool word on the wire; marking it encoded_in_bitflags makes the codec drop the word
+	r.Rule("R14.K", "generateStructParameter appends the encoded_in_bitflags option exactly on the equal edge of the test param.Type == \"true\" (the TL type, not the Go type it maps to)", 1)
+	if f := c.fn("R14.K", load.GenPkg, "*Generator", "generateStructParameter"); f != nil {
+		n := 0
+		for _, b := range f.Blocks {
+			for _, in := range b.Instrs {
+				bo, ok := in.(*ssa.BinOp)
+				if !ok || bo.Op != token.ADD {
+					continue
+				}
+				k, isK := bo.Y.(*ssa.Const)
+				if !isK || k.Value == nil || !strings.Contains(k.Value.ExactString(), "encoded_in_bitflags") {
+					continue
+				}
+				n++
+				okG := false
+				for _, i := range an.Ifs(f) {
+					cd, okc := an.Classify(i)
+					if !okc || cd.Kind != "eq" {
+						continue
+					}
+					isType := func(v ssa.Value) bool {
+						ld, ok := v.(*ssa.UnOp)
+						if !ok {
+							return false
+						}
+						fa, ok := ld.X.(*ssa.FieldAddr)
+						return ok && strings.HasSuffix(an.FieldName(fa.X.Type(), fa.Field), "tlparser.Parameter.Type")
+					}
+					if ((isType(cd.X) && isConstString(cd.Y, "true")) || (isType(cd.Y) && isConstString(cd.X, "true"))) && cd.EdgeWhen(true).To() == bo.Block() && len(bo.Block().Preds) == 1 {
+						okG = true
+					}
+				}
+				r.Check(okG, "R14.K", sprintf("tag:bitflag-option-iff-true#%d", n), c.pos(bo.Pos()), "the option is appended in the block entered only by the equal edge of param.Type == \"true\"")
+			}
+		}
+		if n == 0 {
+			r.Undecide("R14.K", "tag:bitflag-option-iff-true", c.pos(f.Pos()), "no `+ \",encoded_in_bitflags\"` found in generateStructParameter")
+		}
+	}
 	r.Rule("R14.E", "the enum classification is a universal over the type's constructors: createInternalSchema fills Enums only behind the true result of a predicate over the group, and in that predicate every path that has seen a constructor with parameters returns false", 2)
 	if f := c.fn("R14.E", load.GenPkg, "", "createInternalSchema"); f != nil {
 		var stores []ssa.Instruction
